@@ -442,6 +442,18 @@ func execExitC18(c *Case, dir string) {
 				cols = cols[:4]
 			}
 			rows[at] = strings.Join(cols, ",")
+			if r.Chance(1, 3) {
+				// scale: a valid row of more than 64 KiB (some ten thousand SNPs) right before the malformed one: a reader
+				// that gives up on long lines must say so, not end the reading as if the file were finished
+				var sn []string
+				n := r.Range(9500, 12000)
+				for p := 1; p <= n; p++ {
+					sn = append(sn, fmt.Sprintf("A%dC", p))
+				}
+				long := fmt.Sprintf("longrow,%s,,%d,0", strings.Join(sn, "|"), n)
+				rows = append(rows[:at:at], append([]string{long}, rows[at:]...)...)
+				c.Tag("row-over-64KiB-before-the-malformed-row")
+			}
 		}
 		s.files[f+".csv"] = strings.Join(rows, "\n") + "\n"
 		for i, a := range args {
